@@ -13,6 +13,7 @@ os.makedirs(os.path.join(V, "vocab"), exist_ok=True)
 for name, u in ck.scan_units().items():
     u["name"] = name
     names = set()
+    ops = {}
     for v in u["variants"]:
         out = "/tmp/vocab_%s_%s.rs" % (name, v)
         r = subprocess.run([ck.VX, "--repo", "/repo", "--verif", V, "--unit", u["path"], "--variant", v, "--out", out], capture_output=True, text=True)
@@ -21,7 +22,11 @@ for name, u in ck.scan_units().items():
         text = "\n".join(l.split("//")[0] for l in open(out).read().splitlines())
         names |= set(ck.CALL_RE.findall(text))
         names |= set(re.findall(r"\bfn\s+(\w+)", text))
+        import json
+        m = json.load(open(out + ".map.json"))
+        ops[v] = {fid: sorted(set(re.sub(r"x\d+$", "", k) for k in info.get("keys", []))) for fid, info in m["fns"].items()}
         for f in (out, out + ".map.json"):
             os.remove(f)
     open(os.path.join(V, "vocab", name + ".txt"), "w").write("\n".join(sorted(names)) + "\n")
+    json.dump(ops, open(os.path.join(V, "vocab", name + ".ops.json"), "w"), indent=0, sort_keys=True)
     print(name, len(names))
